@@ -9,14 +9,21 @@ Kws  == {"maxLength", "pattern", "enum", "type", "minLength", "format",
          \* failures of a composition / a structural keyword: the marker sits in a value that is rejected as a whole
          "oneOf", "anyOf", "not", "uniqueItems", "required", "additionalProperties", "maxItems"}
 JsonOnly == {"type", "oneOf", "anyOf", "not", "uniqueItems", "required", "additionalProperties", "maxItems"}
-Hides == {"custom", "nodetails"}
+Hides == {"custom", "nodetails",
+          "nodetails_late"}    \* history: the error is rendered once with details enabled, then the switch is set, then it is rendered again
+(* whose Options carry the reason-only function: "both" = one Options object on the request and the response input; *)
+(* "resp" = the response input has Options of its own (with the function), the request input it embeds has OTHER,    *)
+(* non-nil Options without it.  ValidateResponse is governed by the response input's Options.                       *)
+OptsAt == {"both", "resp"}
+RespLocs == {"respbody", "respheader"}
 
 (* "type" needs a JSON carrier (a string where an integer is declared); in a parameter or   *)
 (* header the same text is a parse error, not a schema error, and is outside the statement. *)
-Legal(c) == c.kw \in JsonOnly => c.loc \in {"body", "bodyitem", "respbody"}
+Legal(c) == /\ c.kw \in JsonOnly => c.loc \in {"body", "bodyitem", "respbody"}
+            /\ c.optsat = "resp" => c.loc \in RespLocs
 
 VARIABLE c
-Init == c \in {x \in [loc : Locs, kw : Kws, multi : BOOLEAN, hide : Hides] : Legal(x)}
+Init == c \in {x \in [loc : Locs, kw : Kws, multi : BOOLEAN, hide : Hides, optsat : OptsAt] : Legal(x)}
 Next == UNCHANGED c
 Spec == Init /\ [][Next]_c
 Emit == CSVWrite("%1$s", <<ToJson([kind |-> "req", c |-> c])>>, "cases_req.ndjson")
